@@ -94,6 +94,7 @@ def strategy(tier):
         steps = draw(st.sampled_from([0, 0, 1, 2]))
         if sched == "list" and steps:
             sched = "quantile"                 # continue needs a tolerance below the previous final one: use the quantile form
+        c["plots"] = draw(st.integers(0, 3)) == 0
         return dict(c, priors=priors, constraint=constraint, N=draw(st.integers(20, 45)), G=G, sched=sched, q=draw(S.fl(0.3, 0.8, 2)),
                     tol_factor=draw(S.fl(0.5, 1.2, 2)), M=draw(st.sampled_from([None, None, "N-1", "half"])),
                     continues=steps, np_seed=draw(st.integers(0, 2 ** 32 - 1)))
@@ -238,6 +239,19 @@ def oracle(case, rec):
         run(abc.continue_posterior_sample, **nxt)
         tol_history.append(list(np.asarray(abc.tolerances, float)))
         acc += list(np.asarray(abc.acceptance_rate, float))
+    if case.get("plots"):
+        # looking at the posterior (both scalings of the scatter matrix) must not change it
+        import matplotlib
+        matplotlib.use("Agg")
+        import matplotlib.pyplot as plt
+        try:
+            abc.plot_scatter()
+            abc.plot_scatter(logscale=False)
+            rec.label("plot_scatter-called-before-reading-the-sample")
+        except Exception as e:
+            rec.label("plot_scatter-raised:" + type(e).__name__)
+        finally:
+            plt.close("all")
     res = np.asarray(abc.res, float)
     dist = np.asarray(abc.dist, float)
     w = np.asarray(abc.w, float)
